@@ -17,7 +17,7 @@ use std::net::{IpAddr, Ipv4Addr};
 use std::sync::Arc;
 use tokio::io::{AsyncReadExt, AsyncWriteExt};
 
-pub const RULE: &str = "cases: scripts of one or two conforming RTR caches (v0 / v1): a full response to the reset query (cache response, IPv4/IPv6 prefix announcements, router-key PDUs in v1, end of data), then 0-4 further rounds, each either an incremental update (client is poked to send a serial query; response with announcements and withdrawals), a cache reset answered by a new full set, a serial notify, or an error report; every PDU stream is cut into generated chunk sizes; the session may be closed at the end, or lost in mid-conversation before any round (right after a Serial Notify with a new serial, right after a Cache Reset, in the middle of a response before End-of-Data, while the client is told to poll, or idle) without the cache reading what the client still sends. \
+pub const RULE: &str = "cases: scripts of one or two conforming RTR caches (v0 / v1; session id incl. 0, first serial 0 or 1): a full response to the reset query (cache response, IPv4/IPv6 prefix announcements, router-key PDUs in v1, end of data), then 0-4 further rounds, each either an incremental update (client is poked to send a serial query; response with announcements and withdrawals), a cache reset answered by a new full set (under a new serial or under the one the client already has), a serial notify, or an error report; every PDU stream is cut into generated chunk sizes; the session may be closed at the end, or lost in mid-conversation before any round (right after a Serial Notify with a new serial, right after a Cache Reset, in the middle of a response before End-of-Data, while the client is told to poll, or idle) without the cache reading what the client still sends. \
 Oracle after every end-of-data (once the client is idle): VRPs installed for that cache == fold of the script, the other cache's VRPs untouched; the client has consumed every PDU (end-of-data counter == number sent); a cache reset is answered by a reset query; after the session ends the cache's VRPs are gone. \
 non-trivial := at least one incremental round containing a withdrawal, or an unused PDU type (router key / unknown) in mid-stream, or a second cache, or a session lost in mid-conversation; distinct := distinct serialized case";
 
@@ -36,7 +36,12 @@ pub enum Round {
     Incremental { deltas: Vec<(bool, Vrp)>, router_keys: u8 },
     /// the cache answers the serial query with Cache Reset; after the client's reset
     /// query it sends this full set
-    CacheReset { full: Vec<Vrp> },
+    CacheReset {
+        full: Vec<Vrp>,
+        /// the full set is sent under the serial the client already has (the cache lost its deltas, not its data)
+        #[serde(default)]
+        same_serial: bool,
+    },
     /// unsolicited serial notify (same serial: nothing to do)
     NotifySame,
     /// error report with text (non-fatal code), nothing else
@@ -77,6 +82,9 @@ pub struct CacheScript {
     pub rounds: Vec<Round>,
     pub chunks: Vec<u8>,
     pub close: bool,
+    /// the cache's first serial number is 0 (else 1)
+    #[serde(default)]
+    pub serial0: bool,
 }
 
 #[derive(Clone, Debug, Serialize, Deserialize)]
@@ -286,7 +294,7 @@ async fn run_case(c: &Case) -> CheckResult {
                 info = info.class("router-key-in-stream");
             }
         }
-        bytes.extend(eod(s.v1, s.session_id, 1));
+        bytes.extend(eod(s.v1, s.session_id, if s.serial0 { 0 } else { 1 }));
         conns[i].eods_sent += 1;
         if !send(&mut conns[i], &bytes, &s.chunks).await {
             return Err(Failure::new("session-died", format!("cache {i}: the client closed the session during a well-formed initial response")).with("phase", "initial"));
@@ -297,7 +305,7 @@ async fn run_case(c: &Case) -> CheckResult {
 
     // ---- rounds -------------------------------------------------------------
     let max_rounds = c.caches.iter().map(|s| s.rounds.len()).max().unwrap_or(0);
-    let mut serial = vec![1u32; conns.len()];
+    let mut serial: Vec<u32> = (0..conns.len()).map(|i| if c.caches.get(i).is_some_and(|s| s.serial0) { 0 } else { 1 }).collect();
     let mut lost = vec![false; conns.len()];
     for r in 0..=max_rounds {
         for (i, s) in c.caches.iter().enumerate().take(2) {
@@ -408,7 +416,7 @@ async fn run_case(c: &Case) -> CheckResult {
                     info = info.class("incremental-round");
                     check_state!(format!("incremental: after End-of-Data #{} of cache {i}", conns[i].eods_sent));
                 }
-                Round::CacheReset { full } => {
+                Round::CacheReset { full, same_serial } => {
                     conns[i].client.soft_reset.notify_one();
                     settle(&conns[i]).await;
                     let q = drain_queries(&mut conns[i]).await;
@@ -425,7 +433,11 @@ async fn run_case(c: &Case) -> CheckResult {
                     if !q.contains(&2) {
                         return Err(Failure::new("cache-reset-ignored", format!("cache {i}: Cache Reset was not answered with a Reset Query (client sent {q:?}); the session can make no further progress")));
                     }
-                    serial[i] += 1;
+                    if !*same_serial {
+                        serial[i] += 1;
+                    } else {
+                        info = info.class("full-set-under-the-same-serial");
+                    }
                     let mut bytes = hdr(s.v1, 3, s.session_id, 8);
                     let mut set = BTreeSet::new();
                     for v in full {
@@ -513,7 +525,7 @@ fn arb_vrp() -> impl Strategy<Value = Vrp> {
 fn arb_round() -> impl Strategy<Value = Round> {
     prop_oneof![
         6 => (proptest::collection::vec((prop::bool::weighted(0.5), arb_vrp()), 0..6), 0u8..3).prop_map(|(deltas, router_keys)| Round::Incremental { deltas, router_keys }),
-        1 => proptest::collection::vec(arb_vrp(), 0..5).prop_map(|full| Round::CacheReset { full }),
+        1 => (proptest::collection::vec(arb_vrp(), 0..5), any::<bool>()).prop_map(|(full, same_serial)| Round::CacheReset { full, same_serial }),
         1 => Just(Round::NotifySame),
         1 => (0u16..9, any::<u8>()).prop_map(|(code, text)| Round::ErrorReport { code, text }),
     ]
@@ -531,8 +543,8 @@ fn arb_loss() -> impl Strategy<Value = Option<Loss>> {
 }
 
 fn arb_script() -> impl Strategy<Value = CacheScript> {
-    (arb_loss(), any::<bool>(), any::<u16>(), proptest::collection::vec(arb_vrp(), 0..7), 0u8..3, proptest::collection::vec(arb_round(), 0..5), proptest::collection::vec(prop_oneof![1u8..8, 8u8..40, Just(255u8)], 0..4), prop::bool::weighted(0.4))
-        .prop_map(|(loss, v1, session_id, initial, initial_router_keys, mut rounds, chunks, close)| {
+    (arb_loss(), any::<bool>(), prop_oneof![1 => Just(0u16), 4 => any::<u16>()], proptest::collection::vec(arb_vrp(), 0..7), 0u8..3, proptest::collection::vec(arb_round(), 0..5), proptest::collection::vec(prop_oneof![1u8..8, 8u8..40, Just(255u8)], 0..4), prop::bool::weighted(0.4), prop::bool::weighted(0.3))
+        .prop_map(|(loss, v1, session_id, initial, initial_router_keys, mut rounds, chunks, close, serial0)| {
             // incremental withdrawals should hit: retarget half of them at known VRPs
             let mut known: Vec<Vrp> = initial.clone();
             for r in rounds.iter_mut() {
@@ -547,7 +559,7 @@ fn arb_script() -> impl Strategy<Value = CacheScript> {
                     }
                 }
             }
-            CacheScript { loss, v1, session_id, initial, initial_router_keys, rounds, chunks, close }
+            CacheScript { loss, v1, session_id, initial, initial_router_keys, rounds, chunks, close, serial0 }
         })
 }
 
